@@ -45,7 +45,8 @@ pub fn analyze_type(
         Cast([ty, a]) => merge(enode, [x(ty)?, x(a)?], |[ty, _]| Some(ty)),
 
         // number ops
-        Neg(a) => check(enode, x(a)?, |a| a.is_number()),
+        // (the NULL literal has a type of its own; its negation is NULL)
+        Neg(a) => check(enode, x(a)?, |a| a.is_number() || *a == DataType::Null),
         Add([a, b]) | Sub([a, b]) | Mul([a, b]) | Div([a, b]) | Mod([a, b]) => {
             merge(enode, [x(a)?, x(b)?], |[a, b]| {
                 match if a > b { (b, a) } else { (a, b) } {
